@@ -7,6 +7,9 @@ KNOWN_SIG = "rt-bound-exceeded-while-inner-worker-clogged-by-ctx-ignoring-handle
 
 class C08(AntsSpec):
     id = "C08"
+    # same harness source as C07 (harness/cmd/c08/*.go are symlinks to ../c07/*.go); a separate binary name keeps
+    # concurrently running C07 and C08 checks from deleting each other's freshly built executable
+    harness = "c08"
     rule = ("one case = one virtual-time scenario (see C07); judged: maximum number of handler invocations in progress "
             "(counter kept by the handlers), len(taskChan) read right before each Send vs. discard, and Get2 instant vs. "
             "first attempt's begin + R*T for tasks whose own handlers honour ctx; non-trivial = >= 2 handlers ran "
